@@ -13,7 +13,7 @@ import onnx
 from onnx import helper as oh
 from onnx import numpy_helper as nph
 
-from . import common, compare, modelgen, optcommon, runner
+from . import findings, common, compare, modelgen, optcommon, runner
 
 NODE_DIR = os.path.join(os.path.dirname(onnx.__file__), "backend", "test", "data")
 
@@ -239,6 +239,10 @@ def opt_case(spec, pid):
     res["sample"] = label
     opts = optcommon.option_tuples(rng, spec["nopt"])
     known = optcommon.known_mechs(pid)
+    _c04_entries = findings.load("C04")
+
+    def listed(key):
+        return findings.match(_c04_entries, key) is not None
     all_fired = set()
     for o in opts:
         hit("api:" + o["api"] + ":" + o.get("entry", "proto"))
@@ -260,14 +264,17 @@ def opt_case(spec, pid):
         if serr is None:
             serr = optcommon.dangling(m2)
         if serr:
-            culprit = optcommon.attribute(m, o, lambda x: not optcommon.structural(x) and not optcommon.dangling(x), fired, known)
-            kind = "output_type_lost" if "Field 'type' of 'value_info' is required but missing" in serr else "invalid"
+            kind = "output_type_lost" if ("Field 'type' of 'value_info' is required but missing" in serr or
+                                          "Field 'shape' of 'type' is required but missing" in serr) else "invalid"
+            culprit = optcommon.attribute(m, o, lambda x: not optcommon.structural(x) and not optcommon.dangling(x), fired, known,
+                                          prefer=lambda name, kind=kind: listed(f"mech={name};kind={kind}"))
             res["c04"].append({"key": f"mech={culprit or '?'};kind={kind}", "what": f"{o['api']}({_optstr(o)}) result invalid: {serr[:300]}",
                                "detail": {"opts": o, "case": label, "fired": list(dict.fromkeys(fired))[:20]}})
         sd = optcommon.sig_diff(m, m2)
         if sd:
-            culprit = optcommon.attribute(m, o, lambda x: optcommon.sig_diff(m, x) is None, fired, known)
-            kind = "output_type_lost" if sd.endswith("-> (None, None)") else "signature"
+            kind = "output_type_lost" if (sd.endswith("-> (None, None)") or (sd.startswith("declared shape of") and sd.endswith("-> None"))) else "signature"
+            culprit = optcommon.attribute(m, o, lambda x: optcommon.sig_diff(m, x) is None, fired, known,
+                                          prefer=lambda name, kind=kind: listed(f"mech={name};kind={kind}"))
             res["c04"].append({"key": f"mech={culprit or '?'};kind={kind}", "what": f"{o['api']}({_optstr(o)}): {sd}",
                                "detail": {"opts": o, "case": label, "fired": list(dict.fromkeys(fired))[:20]}})
         # ---- C03: semantics
